@@ -19,6 +19,10 @@ def gen_valuation_row(rng, m, kind, k):
         vals = [float(rng.randint(0, 6)) for _ in range(m)]
     elif kind == "bigint":
         vals = [float(rng.randint(0, 1000)) for _ in range(m)]
+    elif kind == "source_constants":      # values that coincide with constants of the library source: the 1e-5 floor of the allocation rules, the 1e-9 tolerance, and
+        # favourites whose thresholds fall exactly on the floor
+        pool = [EPS, EPS, 2 * EPS, 1e-9, 0.0, EPS / 2] + [EPS * m ** (l / (k + 1)) for l in range(1, k + 1)]
+        vals = [rng.choice(pool) for _ in range(m)]
     else:  # straddle: values one ulp either side of a threshold
         v = rng.random()
         vals = [v] + [float(np.nextafter(v / m ** (rng.randint(1, k) / (k + 1)), rng.choice([0, 1]))) if rng.random() < 0.7 else v * rng.random() for _ in range(m - 1)]
